@@ -42,9 +42,9 @@ PROFILE_N = gen.profile(
     ctxs=["actx", "actx", "nonasync", "ov", "nonasync"],
     **dict(COMMON, w_stmt=dict(with_=5.0, raise_=0.3, try_=1.5, ret=0.4, orphan=0, read=0.4, sync=0))
 )
-MON_A = ("ctxactive", "refeq", "restore", "nesting")
+MON_A = ("ctxactive", "refeq", "restore", "nesting", "stale")
 # profile F: some contexts fail in resume()/pause(); no reference then - the in-run oracles on all OTHER contexts remain
-MON_F = ("ctxactive", "nesting")
+MON_F = ("ctxactive", "nesting", "stale")
 HOWS = ["call", "value", "yielded", "yielded_value"]
 
 
